@@ -17,7 +17,10 @@ use crate::io_uring_backend::{
   connection_handler::{
     HandlerIoOps, HandlerSqeBlueprint, UringConnectionHandler, UringWorkerInterface, WorkerIoConfig,
   },
-  ops::{HANDLER_INTERNAL_SEND_OP_UD, UserData, WAKEUP_STATE_SIGNALED, WAKEUP_STATE_SLEEPING},
+  ops::{
+    HANDLER_INTERNAL_SEND_OP_UD, UringOpRequest, UserData, WAKEUP_STATE_SIGNALED,
+    WAKEUP_STATE_SLEEPING,
+  },
   worker::{InternalOpTracker, MultishotReader},
 };
 use crate::message::FrameBatch;
@@ -40,6 +43,9 @@ pub(crate) struct ZmtpSmartConnection {
   /// batch via a single relaxed load instead of iterating every egress channel.
   work_signal_gen: Arc<AtomicUsize>,
   sndtimeo: Option<Duration>,
+  /// External-op id for the `ShutdownConnectionHandler` request sent by `close_connection`
+  /// (the id the registration request used; that operation is complete by then).
+  shutdown_user_data: UserData,
 }
 
 impl std::fmt::Debug for ZmtpSmartConnection {
@@ -59,6 +65,7 @@ impl ZmtpSmartConnection {
     worker_asleep: Arc<AtomicU8>,
     work_signal_gen: Arc<AtomicUsize>,
     sndtimeo: Option<Duration>,
+    shutdown_user_data: UserData,
   ) -> Self {
     Self {
       fd,
@@ -67,6 +74,7 @@ impl ZmtpSmartConnection {
       worker_asleep,
       work_signal_gen,
       sndtimeo,
+      shutdown_user_data,
     }
   }
 
@@ -163,7 +171,29 @@ impl ISocketConnection for ZmtpSmartConnection {
   }
 
   async fn close_connection(&self) -> Result<(), ZmqError> {
-    Ok(())
+    // The handler drops its end of the egress channel when its fd has been closed (peer EOF,
+    // error, earlier close). The fd number may belong to a newer connection by then.
+    if self.egress_tx.is_closed() {
+      return Ok(());
+    }
+    let (reply_tx, reply_rx) = fibre::oneshot::oneshot();
+    let req = UringOpRequest::ShutdownConnectionHandler {
+      user_data: self.shutdown_user_data,
+      fd: self.fd,
+      reply_tx,
+    };
+    let worker_op_tx = crate::uring::global_state::get_global_uring_worker_op_tx()?;
+    worker_op_tx.send(req).await.map_err(|e| {
+      ZmqError::Internal(format!("UringWorker op channel error for close: {}", e))
+    })?;
+    match tokio::time::timeout(Duration::from_secs(5), reply_rx.recv()).await {
+      Ok(Ok(Ok(_))) => Ok(()),
+      Ok(Ok(Err(e))) => Err(e),
+      Ok(Err(_)) => Err(ZmqError::Internal(
+        "UringWorker reply channel error for close".into(),
+      )),
+      Err(_) => Err(ZmqError::Timeout),
+    }
   }
 
   fn as_any(&self) -> &dyn Any {
